@@ -53,7 +53,11 @@ class UnicodeForPython3(str):
         self.value = value
 
     def __eq__(self, other) -> bool:
-        return self.value == other or self.value.decode("utf-8") == other
+        # Python 2 lets a unicode string hold a lone surrogate.
+        return (
+            self.value == other
+            or self.value.decode("utf-8", "surrogatepass") == other
+        )
 
     def __hash__(self) -> int:
         return id(self.value)
